@@ -935,7 +935,11 @@ fn gen_tls(repo: &Path, g: &mut Gen) -> R<()> {
         Ok(with_callees(&quote::quote!(#b).to_string(), fns))
     };
     let entity = body_of(&cbf, "entity", cb_rel)?;
-    let san = { let t = toks(&entity); match tfind(&t, "SanType :: DnsName (", 0) { Some(i) => t.get(i + 1).cloned().unwrap_or_default(), None => return shape(cb_rel, "entity(): no SanType::DnsName(\"…\")") } };
+    let san = { let t = toks(&entity); match tfind(&t, "SanType :: DnsName (", 0) {
+        // a string literal, or a constant of the file that is one
+        Some(i) if t.get(i).map(|x| x == "\"").unwrap_or(false) => t.get(i + 1).cloned().unwrap_or_default(),
+        Some(i) => { let name = t.get(i).cloned().unwrap_or_default(); match cb.consts().get(&name) { Some(e) => { let lit = quote::quote!(#e).to_string(); if lit.starts_with('"') && lit.ends_with('"') && lit.len() >= 2 { lit[1..lit.len() - 1].to_string() } else { return shape(cb_rel, format!("entity(): the DNS name `{name}` is not a string constant")) } } None => return shape(cb_rel, format!("entity(): the DNS name `{name}` is neither a literal nor a constant of the file")) } }
+        None => return shape(cb_rel, "entity(): no SanType::DnsName(\"…\")") } };
     // (`toks` splits the string literal `"localhost"` into `"`, `localhost`, `"`)
     let eku_of = |name: &str| -> R<&'static str> {
         let b = body_of(&cbf, name, cb_rel)?;
@@ -965,9 +969,17 @@ fn gen_tls(repo: &Path, g: &mut Gen) -> R<()> {
         let guarded = call_only_when_false(b, &flag, "valid_for_days").ok_or_else(|| Shape(format!("{rel}: {fname}(): valid_for_days is called through a helper: cannot tell whether `{flag}` guards it")))?;
         Ok((n, guarded))
     };
-    let (ca_days, ca_guarded) = days_in(&cg, cg_rel, "generate_ca_cert")?;
-    let (en_days, en_guarded) = days_in(&kp, kp_rel, "build")?;
-    let signed = { let fns = all_fns(&kp.ast); body_of(&fns, "build", kp_rel)?.contains("serialize_der_with_signer (") };
+    // the function that limits the validity is found by what it does, not by its name: the one with a boolean parameter whose
+    // own body calls `valid_for_days` (a helper split off `build`, a renamed function: the facts are the same)
+    let limiter = |src: &Src, rel: &str| -> R<String> {
+        let fns = all_fns(&src.ast);
+        let mut found: Vec<String> = fns.iter().filter(|(n, b)| quote::quote!(#b).to_string().contains("valid_for_days (") && bool_param(&src.ast, n).is_some()).map(|(n, _)| n.clone()).collect();
+        found.sort();
+        match found.len() { 1 => Ok(found.remove(0)), 0 => shape(rel, "no function with a bool parameter calls valid_for_days(…)"), _ => shape(rel, format!("several functions with a bool parameter call valid_for_days(…): {found:?}")) }
+    };
+    let (ca_days, ca_guarded) = days_in(&cg, cg_rel, &limiter(&cg, cg_rel)?)?;
+    let (en_days, en_guarded) = days_in(&kp, kp_rel, &limiter(&kp, kp_rel)?)?;
+    let signed = { let fns = all_fns(&kp.ast); fns.values().any(|b| quote::quote!(#b).to_string().contains("serialize_der_with_signer (")) };
     let vrb = { let fns = all_fns(&vr.ast); body_of(&fns, "new", vr_rel)? };
     let symmetric = tseq(&vrb, &["now_utc () . checked_sub ( $ )", "now_utc () . checked_add ( $ )"]);
     let sid = vr.const_int("SECONDS_IN_DAY").unwrap_or(86_400);
@@ -1308,7 +1320,21 @@ fn gen_compression(repo: &Path, g: &mut Gen) -> R<()> {
         let nb = inherent_body(src, ty, "new")?;
         if !nb.contains("library") { return shape(rel, format!("{ty}::new does not store the library it is given")); }
     }
-    let db = trait_body(&dt, "DeflateLibrary", "default", "Default")?;
+    // `impl Default for DeflateLibrary { fn default() … }`, or `#[derive(Default)]` with `#[default]` on one variant
+    let db = match trait_body(&dt, "DeflateLibrary", "default", "Default") {
+        Ok(b) => b,
+        Err(e) => {
+            let mut marked: Option<String> = None;
+            for it in &dt.ast.items {
+                if let Item::Enum(en) = it {
+                    if en.ident == "DeflateLibrary" && en.attrs.iter().any(|a| { let m = &a.meta; let t = quote::quote!(#m).to_string(); t.starts_with("derive") && t.contains("Default") }) {
+                        for v in &en.variants { if v.attrs.iter().any(|a| a.path().is_ident("default")) { marked = Some(v.ident.to_string()); } }
+                    }
+                }
+            }
+            match marked { Some(v) => v, None => return Err(e) }
+        }
+    };
     let dl = match (db.contains("Gzip"), db.contains("Zlib")) { (true, false) => "gzip", (false, true) => "zlib", _ => return shape(dt_rel, "Default for DeflateLibrary not understood") };
     let _ = writeln!(s, "/-- {dt_rel}: `Default for DeflateLibrary` (both halves derive `Default` from it) -/\ndef deflateDefault : Library := .{dl}\n");
     // the single-format algorithms: which library entry points the two halves use
